@@ -241,6 +241,8 @@ class J1939_22:
                         self.__job_thread_wakeup()
                         # get next buffer
                         session += 1
+                # the job thread has to recalculate its wakeup for the new deadline
+                self.__job_thread_wakeup()
         else:
             # if the PF is between 0 and 239, the message is destination dependent when pdu_specific != 255
             # if the PF is between 240 and 255, the message can only be broadcast
